@@ -1,3 +1,42 @@
-#!/bin/sh
-# Placeholder until the mutant corpus is in place: succeeds without output.
+#!/bin/bash
+# Self test of the checker: every patch under selftest/mutants/ breaks one rule
+# instance in a way that still compiles. Each is applied to a scratch copy of
+# /repo's current working tree (outside /repo and /verif, removed afterwards)
+# and the named property check must exit 1 and name the expected construct.
+#   usage: selftest/run.sh [PROPERTY-ID]   (no argument: all mutants)
+# A mutant file <name>.patch has a sidecar <name>.expect with lines
+#   <property-id> <substring that must occur in the check's output>
+# Mutants whose patch no longer applies are reported and count as failures.
+set -u
+here=$(cd "$(dirname "$0")" && pwd)
+want=${1:-}
+export GOFLAGS=-mod=mod GOPROXY=off GOSUMDB=off GOTOOLCHAIN=local GOWORK=off
+tmp=$(mktemp -d "${TMPDIR:-/tmp}/sfselftest.XXXXXX")
+trap 'rm -rf "$tmp"' EXIT
+fail=0; ran=0
+for patch in "$here"/mutants/*.patch; do
+  [ -e "$patch" ] || continue
+  exp="${patch%.patch}.expect"
+  [ -e "$exp" ] || { echo "SELFTEST missing .expect for $patch"; fail=1; continue; }
+  if [ -n "$want" ] && ! grep -q "^$want " "$exp"; then continue; fi
+  rm -rf "$tmp/repo"; mkdir -p "$tmp/repo"
+  rsync -a --exclude .git /repo/ "$tmp/repo/"
+  if ! (cd "$tmp/repo" && patch -p1 -s --no-backup-if-mismatch < "$patch" >/dev/null 2>&1); then
+    echo "SELFTEST FAIL $(basename "$patch"): patch does not apply to the current tree"; fail=1; continue
+  fi
+  while read -r prop needle; do
+    [ -z "$prop" ] && continue
+    case "$prop" in \#*) continue;; esac
+    if [ -n "$want" ] && [ "$prop" != "$want" ]; then continue; fi
+    out=$(/verif/bin/sfcheck -property "$prop" -repo "$tmp/repo" -no-evidence 2>&1); rc=$?
+    ran=$((ran+1))
+    if [ $rc -ne 1 ] || ! printf '%s' "$out" | grep -qF -- "$needle"; then
+      echo "SELFTEST FAIL $(basename "$patch") property=$prop: expected exit 1 naming '$needle' (exit $rc)"; fail=1
+    else
+      echo "selftest ok  $(basename "$patch") property=$prop fires on '$needle'"
+    fi
+  done < "$exp"
+done
+echo "selftest: $ran mutant checks run, failures=$fail"
+[ $fail -eq 0 ] || { echo "VIOLATION property=${want:-SELFTEST} replay=$here/mutants"; exit 1; }
 exit 0
